@@ -449,6 +449,8 @@ func checkC06(c *Ctx) {
 	}
 	checkRemovalIdentity(c, "R6")
 	checkTierIdentity(c, "R8")
+	c.Rule("R9", "balancer input: every IncConnCount is released by DecConnCount on every path out of the function")
+	checkHostConnPairing(c, "R9")
 	// the snapshot given to the balancer is current only if every tier change rebuilds the cache
 	checkTierRebuild(c, "R1")
 
@@ -645,4 +647,53 @@ func resolveCell(v ssa.Value) ssa.Value {
 		v = st.Val
 	}
 	return v
+}
+
+// checkHostConnPairing (C06.R9): the per-host connection count is the input of the least-connection balancer. Every
+// increment must be released on every path out of the function: after IncConnCount(h) each path to a return crosses
+// DecConnCount (directly, or a defer of a closure/function that calls it). A leaked increment makes an idle host
+// look busy for ever, so the balancer keeps preferring the really busier one.
+func checkHostConnPairing(c *Ctx, rule string) {
+	p := c.P
+	inc := p.Func(hostPkg, "(*Stats).IncConnCount")
+	dec := p.Func(hostPkg, "(*Stats).DecConnCount")
+	if inc == nil || dec == nil {
+		c.Unresolved(rule, "host.(*Stats).IncConnCount / DecConnCount")
+		return
+	}
+	releases := func(in ssa.Instruction) bool {
+		if isCallToFn(in, dec) {
+			return true
+		}
+		if d, ok := in.(*ssa.Defer); ok {
+			for _, g := range p.callees(d) {
+				found := false
+				for _, h := range append([]*ssa.Function{g}, staticCalleesDeep(g, 2)...) {
+					eachInstr(h, func(_ *ssa.BasicBlock, _ int, x ssa.Instruction) {
+						if isCallToFn(x, dec) {
+							found = true
+						}
+					})
+				}
+				if found {
+					return true
+				}
+			}
+		}
+		return false
+	}
+	n := 0
+	for _, ed := range p.callersOf(inc) {
+		fn := ed.Caller.Func
+		if p.isTestFn(fn) {
+			continue
+		}
+		n++
+		site := fmt.Sprintf("IncConnCount#%d in %s released on every path", n, fnKey(fn))
+		path := findPath(posOf(ed.Site), pathQuery{target: isReturn, avoid: releases})
+		c.Check(path == nil, rule, site, ed.Site.Pos(), "every path from the increment to a return crosses DecConnCount (or its defer)", "a path returns with the per-host connection count still incremented ("+p.pathString(path)+"): after such failures the least-connection balancer sees an idle host as busy and prefers the really busier one")
+	}
+	if n == 0 {
+		c.Unresolved(rule, "no caller of IncConnCount")
+	}
 }
